@@ -519,16 +519,13 @@ Fixpoint child_segments (rev_paths : list str) (first : bool) (encoded : bool)
   match rev_paths with
   | [] => Ok ([], false)
   | p :: rest =>
-      match p with
-      | 47 :: _ => Err ValueError
-      | _ =>
-          let p := if encoded then p else Q PATH_QUOTER p in
-          let segs := rev (split 47 p) in
-          let segs := if negb first then match segs with [] :: t => t | _ => segs end else segs in
-          do r <- child_segments rest false encoded;
-          let '(more, nn) := r in
-          Ok (segs ++ more, mem 46 p || nn)
-      end
+      if startswith [47] p then Err ValueError else
+      let p := if encoded then p else Q PATH_QUOTER p in
+      let segs := rev (split 47 p) in
+      let segs := if negb first then match segs with [] :: t => t | _ => segs end else segs in
+      do r <- child_segments rest false encoded;
+      let '(more, nn) := r in
+      Ok (segs ++ more, mem 46 p || nn)
   end.
 
 Definition make_child (u : url) (paths : list str) (encoded : bool) : result url :=
